@@ -53,7 +53,7 @@ func rulesC11(c *Ctx, r *Report) {
 	r.Extra["decoder_reachable_functions"] = len(funcs)
 	rulesGrdFuncs(c, r, funcs, 120, "bounds goals proven in decoder-reachable functions (hand-confirmed sites: sam.parseLine 11 columns + line[11:] + snm.At{1,3,4,7,8}, parseInts p[i], splitTag, parseTags parts[2][0], fastq name[0]/name[1:], bed 12 padded columns, ItemRGB[i], BlockSizes/Starts[i], smtext row[0]/valStrs[0]/valStrs[1:]/chars[i]/s[0], newick stack tops, quoted/nameFromText)")
 	rulesPanics(c, r, funcs, reach)
-	rulesNoDroppedErrors(c, r, funcs, 40)
+	rulesNoDroppedErrors(c, r, funcs, 30)
 	rulesPassThroughErrors(c, r)
 	rulesNoIntToString(c, r)
 	rulesParseErrorContinues(c, r)
